@@ -43,6 +43,9 @@ def run_one(m: dict) -> tuple[str, bool, str]:
         for file, old, new, count in m["edits"]:
             text = overlay.get(file)
             if text is None:
+                if old == "" and count == 0 and not (REPO / file).exists():
+                    overlay[file] = new  # a file that does not exist in the tree
+                    continue
                 text = (REPO / file).read_text()
             if text.count(old) != count:
                 return m["name"], False, f"mutant does not apply: {text.count(old)} occurrence(s) of {old[:50]!r} in {file}, {count} expected"
